@@ -94,6 +94,16 @@ PROPS = {
                      "else 5s (rel. tol. 1e-9), no timeout answer before the virtual deadline and one in the step that reaches it, late replies have no "
                      "effect, sanitizers silent. Non-trivial = at least one armed duration was compared and the scenario has a timeout or a race step; "
                      "distinct = scenario hash."),
+    "C13": scen("c13", ["default"],
+                quick=dict(cases=1500, size=60), thorough=dict(cases=40000, size=100, budget_s=3000),
+                rule="rapidcheck-generated HTTP exchanges on the WebSocket port: a valid upgrade with exactly one defect - wrong path, method or version, malformed "
+                     "request line after a matching target, one corrupted byte inside the request line, header line without colon, request or header line longer "
+                     "than the read buffer, missing Upgrade/Connection/Sec-WebSocket-Key/-Version, key of wrong length, version != 13, protocol list without jet, "
+                     "truncation at every byte followed by EOF/hang-up/reset - or none, several per scenario, delivered whole or split into two arrivals, while a "
+                     "healthy raw peer with a fetch keeps changing a state; ended by close-all or SIGTERM. Oracles: status 4xx/5xx or nothing, never 101, the "
+                     "connection ends; peer count, accounted heap, descriptors, timers and live blocks back at the idle baseline; clean exit; sanitizers silent; "
+                     "the healthy peer's transcript equals the model. Non-trivial = at least one defect located after the request target matched the handler; "
+                     "distinct = scenario hash."),
     "C17": dict(module=True, engine="module-pbt", driver="c17", variants=["default"], level="exploration", kinds=["asan"],
                 repo_sources=["alloc.c"], shims=["c17_support.c"], exhaustive=True,
                 multi=[("c17_table.c", ["-DT_TYPE=%d" % t, "-DT_ORDER=%d" % o], "tbl_%d_%d" % (t, o)) for t in range(3) for o in range(2, 14)],
